@@ -14,6 +14,8 @@ import (
 	"sync/atomic"
 	"time"
 
+	badgerds "github.com/dgraph-io/badger/v4"
+	corebadger "github.com/sourcenetwork/corekv/badger"
 	"github.com/sourcenetwork/immutable"
 
 	"github.com/sourcenetwork/defradb/acp/dac"
@@ -99,6 +101,8 @@ type mdoc struct {
 	owner   int // -1 public
 	rel     map[string]map[int]bool
 	deleted bool
+	// wasGranted[q+1]: requester q could once read the document through a relationship
+	wasGranted [4]bool
 }
 
 func (d *mdoc) has(rel string, who int) bool {
@@ -148,8 +152,9 @@ func (d *mdoc) String() string {
 }
 
 type logStep struct {
-	doc *mdoc
-	q   string // anonymous GraphQL mutation that reproduces the step on a public replica
+	doc  *mdoc
+	q    string // anonymous GraphQL request that reproduces the step on a public replica
+	read bool   // a read with a side effect (time travel): its answer does not matter
 }
 
 type stats struct {
@@ -188,6 +193,7 @@ type env struct {
 	cidCache map[string]*docCids
 
 	nSentinel int
+	lastTo    *int
 	guard     *guardACP
 }
 
@@ -226,6 +232,9 @@ func (g *guardACP) CheckDocAccess(
 		// the flag, not the panic text, is the signal: a deferred Txn.Discard of the code under test may replace the
 		// panic value on the way up ("Unclosed iterator at time of Txn.Discard")
 		g.tripped.Store(true)
+		if trace {
+			fmt.Fprintf(os.Stderr, "GUARDSTACK %s\n", debug.Stack())
+		}
 		panic(fmt.Sprintf("%s: more than %d access checks in one request (last on %s)", livelockMarker, livelockLimit, docID))
 	}
 	return g.DocumentACP.CheckDocAccess(ctx, permission, actorID, policyID, resourceName, docID)
@@ -235,7 +244,13 @@ func (g *guardACP) CheckDocAccess(
 // With guard != nil the document ACP is wrapped by the livelock guard.
 func boot(relIdx bool, guard *guardACP) *hx.Node {
 	ctx := context.Background()
-	store, err := node.NewStore(ctx, node.WithBadgerInMemory(true))
+	// Badger in memory as node.NewStore builds it, with small arenas: a case boots 4-6 nodes of a few dozen keys
+	bopts := badgerds.DefaultOptions("")
+	bopts.InMemory = true
+	bopts.ValueLogFileSize = 1 << 30
+	bopts.MemTableSize = 16 << 20
+	bopts.BlockCacheSize = 1 << 20
+	store, err := corebadger.NewDatastore("", bopts)
 	if err != nil {
 		hx.Harnessf("store: %v", err)
 	}
@@ -441,7 +456,7 @@ func run(c Case) (fail *hx.Failure, st *stats) {
 			}
 			fail = hx.Failf(sig, "%s as %s never finishes: %s", v.req, who(v.id), v.msg)
 			if trace {
-				fmt.Fprintf(os.Stderr, "LIVELOCK avoid=%v %s\n", e.c.AvoidLive, fail.Msg)
+				fmt.Fprintf(os.Stderr, "LIVELOCK avoid=%v %s\n  authors=%v\n  books=%v\n", e.c.AvoidLive, fail.Msg, e.docs[0], e.docs[1])
 			}
 		case string:
 			if strings.Contains(v, livelockMarker) || e.guard.tripped.Load() {
@@ -621,12 +636,43 @@ func (e *env) write(op Op, tw *twin, pick func(col, idx int) *mdoc, forceVisible
 		if d == nil {
 			return nil
 		}
+		if op.ByOwner {
+			// relationships only exist on owned documents: prefer one (a public target stays possible with ByOwner off)
+			owned := []*mdoc{}
+			for _, x := range e.docs[col] {
+				if x.owner >= 0 {
+					owned = append(owned, x)
+				}
+			}
+			if len(owned) > 0 {
+				d = owned[op.Doc%len(owned)]
+			}
+		}
 		by := op.By
 		if op.ByOwner && d.owner >= 0 {
 			by = d.owner
 		}
 		if by < 0 {
 			by = 0
+		}
+		if op.K == "revoke" && op.ByOwner {
+			// revoke something that exists, if anything does
+			type pair struct {
+				rel string
+				to  int
+			}
+			pairs := []pair{}
+			for _, rel := range []string{"admin", "reader", "updater"} {
+				for to := 0; to < 4; to++ {
+					if d.rel[rel][to] {
+						pairs = append(pairs, pair{rel, to})
+					}
+				}
+			}
+			if len(pairs) > 0 {
+				p := pairs[(op.To+op.Doc)%len(pairs)]
+				op.Rel, op.To = p.rel, p.to
+			}
 		}
 		target := "*"
 		if op.To < 3 {
@@ -654,8 +700,18 @@ func (e *env) write(op Op, tw *twin, pick func(col, idx int) *mdoc, forceVisible
 		if d.rel[op.Rel] == nil {
 			d.rel[op.Rel] = map[int]bool{}
 		}
+		to := op.To
+		if to == 3 {
+			to = -1
+		}
+		e.lastTo = &to
 		if op.K == "grant" {
 			d.rel[op.Rel][op.To] = true
+			for q := -1; q < 3; q++ {
+				if q != d.owner && d.canRead(q) {
+					d.wasGranted[q+1] = true
+				}
+			}
 		} else {
 			delete(d.rel[op.Rel], op.To)
 		}
@@ -789,7 +845,23 @@ func (e *env) writeDoc(op Op, d *mdoc, by int, tw *twin) *hx.Failure {
 			hx.Harnessf("%s succeeded on a deleted document: %s", what, text)
 		}
 	}
-	return e.matrix("after rejected " + what)
+	return e.docUnchanged(d, "after rejected "+what)
+}
+
+// docUnchanged: after a write that had to be without effect, the target document as its owner (or anyone, if public)
+// sees it on the real node equals the public replica's copy. The full matrix follows at the next checkpoint.
+func (e *env) docUnchanged(d *mdoc, where string) *hx.Failure {
+	// (no _version next to author_id: that pair panics in the planner - multiScanNode.Source on a nil node - on any node)
+	q := fmt.Sprintf(`query { x: %s(docID: %s, showDeleted: true) { _docID _deleted %s } v: %s(docID: %s, showDeleted: true) { _version { cid } } }`,
+		colName(d.col), gqlStr(d.id), ownFields(d.col), colName(d.col), gqlStr(d.id))
+	a, b := e.execReal(d.owner, q), exec(e.full, -1, q)
+	if !b.OK() || len(b.Rows("x")) != 1 {
+		hx.Harnessf("public replica lost %s: %s", d, show(b))
+	}
+	if !same(a, b) {
+		return hx.Failf("C10/write/rejected-write-had-effect", "%s: the document changed\n real (as its owner): %s\n history of effective writes: %s", where, show(a), show(b))
+	}
+	return nil
 }
 
 // ---------------------------------------------------------------- visibility matrix
@@ -822,7 +894,8 @@ func (e *env) matrix(where string) *hx.Failure {
 		for r := -1; r < 3; r++ {
 			q := q
 			// known finding: a listing with showDeleted never finishes for a requester with a hidden document
-			skipDeleted := rec.IsKnown(sigLivelock) && e.hiddenIn(col, r) > 0
+			// (hidden in ANY collection: a Book listing that selects author_id also scans Author with showDeleted)
+			skipDeleted := rec.IsKnown(sigLivelock) && e.invisibleCount(r) > 0
 			if skipDeleted {
 				q = strings.Replace(q, "showDeleted: true", "showDeleted: false", 1)
 			}
@@ -875,7 +948,7 @@ func (e *env) buildTwin(r int) *twin {
 	n := boot(e.c.RelIdx, nil)
 	for _, s := range e.log {
 		if s.doc.canRead(r) {
-			if res := exec(n, -1, s.q); !res.OK() {
+			if res := exec(n, -1, s.q); !res.OK() && !s.read {
 				closeNode(n)
 				hx.Harnessf("twin rejected %s: %s", s.q, show(res))
 			}
@@ -978,6 +1051,9 @@ func (e *env) resolve(tpl string, pick func(col, idx int) *mdoc) string {
 
 func (e *env) checkpoint(i int, op Op) *hx.Failure {
 	r := op.R
+	if op.RLast && e.lastTo != nil {
+		r = *e.lastTo
+	}
 	if f := e.matrix(fmt.Sprintf("at checkpoint %d", i)); f != nil {
 		return f
 	}
@@ -986,6 +1062,23 @@ func (e *env) checkpoint(i int, op Op) *hx.Failure {
 	e.st.add("case:checkpoint")
 	if e.invisibleCount(r) > 0 {
 		e.st.add("case:checkpoint-with-hidden-docs")
+	}
+	granted, revoked := false, false
+	for col := 0; col < 2; col++ {
+		for _, d := range e.docs[col] {
+			if d.owner >= 0 && d.owner != r && d.canRead(r) {
+				granted = true
+			}
+			if d.wasGranted[r+1] && !d.canRead(r) {
+				revoked = true
+			}
+		}
+	}
+	if granted {
+		e.st.add("case:checkpoint-with-docs-readable-by-grant")
+	}
+	if revoked {
+		e.st.add("case:checkpoint-with-docs-hidden-again-by-revoke")
 	}
 	for j, rq := range op.Reqs {
 		f := e.request(r, rq, &tw)
@@ -1026,6 +1119,23 @@ func (e *env) hiddenMatters(r int, q string, twinRes hx.Result, label string) {
 	}
 }
 
+// unstable re-executes a read on both nodes; it reports true when some answer is given by both of them, i.e. the
+// observed difference is within the engine's own run-to-run variation.
+func (e *env) unstable(r int, q string, tw *twin, a, b hx.Result) bool {
+	key := func(x hx.Result) string { return show(x) }
+	as, bs := map[string]bool{key(a): true}, map[string]bool{key(b): true}
+	for i := 0; i < 6; i++ {
+		as[key(e.execReal(r, q))] = true
+		bs[key(exec(tw.n, r, q))] = true
+	}
+	for k := range as {
+		if bs[k] {
+			return true
+		}
+	}
+	return false
+}
+
 func (e *env) leakKind(r int, real hx.Result) string {
 	s := show(real)
 	for col := 0; col < 2; col++ {
@@ -1051,6 +1161,12 @@ func (e *env) request(r int, rq Req, twp **twin) *hx.Failure {
 			e.st.add("req:" + l)
 		}
 		e.hiddenMatters(r, q, b, "query")
+		if !same(a, b) && e.unstable(r, q, tw, a, b) {
+			// the engine answers this query differently from one execution to the next on the SAME database (seen: _avg
+			// over an _or of conditions on an indexed field): a difference between two databases proves nothing
+			e.st.add("req:query-skipped-engine-nondeterministic")
+			return nil
+		}
 		if !same(a, b) {
 			if trace {
 				for _, dq := range []string{`query { Author { _docID k name age } }`, `query { Book { _docID k title rating author_id } }`, os.Getenv("C10_DEBUGQ")} {
@@ -1141,6 +1257,15 @@ func (e *env) request(r int, rq Req, twp **twin) *hx.Failure {
 		ra, rb := e.execReal(r, q), exec(tw.n, r, q)
 		e.st.add("req:time-travel")
 		e.hiddenMatters(r, q, rb, "time-travel")
+		if d != nil {
+			// A time-travel READ is not free of effect in this code base: the versioned fetcher re-registers the visited
+			// commits as heads of the document in the node's own head store (latestCommits then lists the old commit too,
+			// and the next update links to both). The same read ran on the public replica just now (hiddenMatters) and on
+			// the twin if it holds the document; logging it as a step of the document's history gives later twins the
+			// same heads. Without this the real node and a rebuilt twin differ in commit order and in later cids.
+			e.log = append(e.log, logStep{doc: d, q: q, read: true})
+			e.cidCache = nil
+		}
 		if same(ra, rb) {
 			return nil
 		}
@@ -1169,12 +1294,7 @@ func (e *env) request(r int, rq Req, twp **twin) *hx.Failure {
 		return nil
 
 	case "mut":
-		f := e.mutate(r, rq, tw)
-		// the twin is rebuilt from the history: a partially permitted mutation cannot be mirrored step by step
-		closeNode(tw.n)
-		tw = e.buildTwin(r)
-		*twp = tw
-		return f
+		return e.mutate(r, rq, tw)
 
 	case "sub":
 		return e.subscribe(r, rq, tw)
@@ -1244,23 +1364,27 @@ func (e *env) mutate(r int, rq Req, tw *twin) *hx.Failure {
 		verb, key = "delete_"+name, "delete_"+name
 		q = fmt.Sprintf(`mutation { %s(%s) { _docID } }`, verb, sel)
 	}
-	// targets by the public replica's filter evaluation
+	// targets: what the selection matches on the twin, i.e. in the world without the hidden documents (a filter through
+	// a relation sees a hidden related document as absent); the public replica only tells whether a hidden one would match
 	tq := fmt.Sprintf(`query { x: %s(%s) { _docID } }`, name, sel)
-	tr := exec(e.full, -1, tq)
+	tr := exec(tw.n, r, tq)
 	byID := map[string]*mdoc{}
 	for _, d := range e.docs[rq.Col] {
 		byID[d.id] = d
 	}
-	targets, permitted, hidden := []*mdoc{}, []*mdoc{}, 0
+	hidden := 0
+	for _, row := range exec(e.full, -1, tq).Rows("x") {
+		id, _ := row["_docID"].(string)
+		if d := byID[id]; d != nil && !d.canRead(r) {
+			hidden++
+		}
+	}
+	targets, permitted := []*mdoc{}, []*mdoc{}
 	for _, row := range tr.Rows("x") {
 		id, _ := row["_docID"].(string)
 		d := byID[id]
-		if d == nil {
-			hx.Harnessf("public replica lists unknown document %s", id)
-		}
-		if !d.canRead(r) {
-			hidden++
-			continue
+		if d == nil || !d.canRead(r) {
+			hx.Harnessf("twin lists %s, which the requester may not read or the model does not know", id)
 		}
 		targets = append(targets, d)
 		if (rq.Del && d.canDelete(r)) || (!rq.Del && d.canUpdate(r)) {
@@ -1275,6 +1399,8 @@ func (e *env) mutate(r int, rq Req, tw *twin) *hx.Failure {
 	}
 	ra := e.execReal(r, q)
 	what := fmt.Sprintf("%s as %s (readable targets %d, permitted %d, hidden matches %d)", q, who(r), len(targets), len(permitted), hidden)
+	// mirror: the twin to apply the per-document steps to (nil when the twin executed the mutation itself)
+	var mirror *twin
 	apply := func(ds []*mdoc) {
 		for _, d := range ds {
 			var m string
@@ -1284,7 +1410,7 @@ func (e *env) mutate(r int, rq Req, tw *twin) *hx.Failure {
 			} else {
 				m = fmt.Sprintf(`mutation { update_%s(docID: %s, input: {%s}) { _docID } }`, name, gqlStr(d.id), rq.Input)
 			}
-			e.applyPublic(d, m, nil)
+			e.applyPublic(d, m, mirror)
 		}
 	}
 	if !tr.OK() {
@@ -1309,6 +1435,7 @@ func (e *env) mutate(r int, rq Req, tw *twin) *hx.Failure {
 	e.st.add("req:mutation-partly-unpermitted")
 	if ra.OK() {
 		// tolerated reading of the statement: unpermitted targets skipped silently; the matrix decides
+		mirror = tw
 		got := map[string]bool{}
 		for _, row := range ra.Rows(key) {
 			id, _ := row["_docID"].(string)
@@ -1421,10 +1548,20 @@ func (e *env) subscribe(r int, rq Req, tw *twin) *hx.Failure {
 		pick = e.pickVisible(r)
 	}
 	hiddenActivity := 0
+	written := map[*mdoc]bool{}
 	var wf *hx.Failure
 	for _, op := range rq.Burst {
 		if op.K != "create" && op.K != "update" {
 			continue // see drawBurst: a delete notification deadlocks on any node
+		}
+		if op.K == "update" {
+			// one write per document and burst: the notification is a time-travel read at the written commit, which
+			// (see the "tt" request) re-registers that commit as a head - harmless only while it still is the head
+			d := pick(op.Col, op.Doc)
+			if d == nil || written[d] {
+				continue
+			}
+			written[d] = true
 		}
 		before := len(e.log)
 		if wf = e.write(op, tw, pick, avoid); wf != nil {
